@@ -1,4 +1,207 @@
-From Coq Require Import List Bool ZArith.
-From Pymoto Require Import Base.Fld Model.Lda.
-Lemma stub_adjoint_N s h : adjoint_mode s h 0 = false.
-Proof. reflexivity. Qed.
+(* Theorems about Model/Lda.v (C06) over an abstract field with involution (class FldLaws, Base/FldP.v);
+   the last section proves the laws for the Gaussian rationals (the instance the correspondence check evaluates). *)
+From Coq Require Import List Bool Arith ZArith Lia Field Ring.
+From Pymoto Require Import Base.Fld Base.FldP Model.Lda.
+Import ListNotations.
+
+Section LdaProofs.
+  Context {F : Type} {I : Fld F} {L : FldLaws F}.
+  Add Field FF2 : (@Fth F I L).
+  Variable inner : mat F -> bool -> list (vec F) -> option (list (vec F)) -> list (vec F).
+
+  Local Notation "0" := f0.
+  Local Infix "+" := fadd.
+  Local Infix "*" := fmul.
+  Local Infix "-" := fsub.
+  Local Infix "/" := fdiv.
+
+  (* ================================================================ matrices: transpose, conjugate *)
+  Lemma nth_nil_0 (i : nat) : nth i (@nil F) 0 = 0.
+  Proof. destruct i; reflexivity. Qed.
+
+  Lemma ncols_wfm n A : wfm n A -> ncols A = n.
+  Proof. intros [Hl Hr]. destruct A as [|r A]; simpl in *; auto. inversion Hr; auto. Qed.
+  Lemma wfm_row n A i : wfm n A -> i < n -> length (nth i A []) = n.
+  Proof. intros [Hl Hr] Hi. rewrite Forall_forall in Hr. apply Hr. apply nth_In. lia. Qed.
+
+  Lemma nth_col j A i : nth i (col j A) 0 = entry A i j.
+  Proof. unfold col, entry. rewrite <- (nth_nil_0 j) at 1. apply (map_nth (fun row => nth j row 0)). Qed.
+  Lemma entry_mtrans A i j : i < ncols A -> entry (mtrans A) i j = entry A j i.
+  Proof.
+    intros Hi. unfold entry at 1, mtrans.
+    rewrite (nth_indep _ [] (col 0 A)) by (rewrite map_length, seq_length; auto).
+    rewrite (map_nth (fun j => col j A) (seq 0 (ncols A)) 0%nat i), seq_nth by auto. simpl.
+    apply nth_col.
+  Qed.
+  Lemma entry_mconj A i j : entry (mconj A) i j = fconj (entry A i j).
+  Proof.
+    unfold entry, mconj. change (@nil F) with (vconj []) at 1. rewrite (map_nth vconj).
+    unfold vconj. rewrite <- conj_0 at 1. apply map_nth.
+  Qed.
+  Lemma wfm_mtrans n A : wfm n A -> wfm n (mtrans A).
+  Proof.
+    intros W. pose proof (ncols_wfm n A W) as Hc. destruct W as [Hl Hr]. unfold mtrans. rewrite Hc. split.
+    - now rewrite map_length, seq_length.
+    - apply Forall_forall. intros r Hin. apply in_map_iff in Hin as [j [<- _]]. unfold col. now rewrite map_length.
+  Qed.
+  Lemma wfm_mconj n A : wfm n A -> wfm n (mconj A).
+  Proof.
+    intros [Hl Hr]. split. - unfold mconj. now rewrite map_length.
+    - apply Forall_forall. intros r Hin. apply in_map_iff in Hin as [r0 [<- Hr0]].
+      rewrite vconj_length. rewrite Forall_forall in Hr. auto.
+  Qed.
+  Lemma wfm_mH n A : wfm n A -> wfm n (mH A).
+  Proof. intros W. apply wfm_mtrans, wfm_mconj, W. Qed.
+  Lemma ncols_mconj A : ncols (mconj A) = ncols A.
+  Proof. destruct A; simpl; auto. apply vconj_length. Qed.
+  Lemma mconj_mtrans A : mconj (mtrans A) = mtrans (mconj A).
+  Proof.
+    unfold mtrans. rewrite ncols_mconj. unfold mconj at 1. rewrite map_map. apply map_ext. intros j.
+    unfold col, mconj, vconj. rewrite !map_map. apply map_ext. intros r.
+    rewrite <- conj_0 at 2. symmetry. apply map_nth.
+  Qed.
+  Lemma entry_mH n A i j : wfm n A -> i < n -> entry (mH A) i j = fconj (entry A j i).
+  Proof. intros W Hi. unfold mH. rewrite entry_mtrans, entry_mconj; auto. rewrite ncols_mconj, (ncols_wfm n); auto. Qed.
+  Lemma entry_out_row n A i j : wfm n A -> n <= j -> entry A i j = 0.
+  Proof.
+    intros [Hl Hr] Hj. unfold entry. destruct (lt_dec i (length A)) as [Hi | Hi].
+    - apply nth_overflow. rewrite Forall_forall in Hr. rewrite (Hr (nth i A [])); auto. apply nth_In; auto.
+    - rewrite (nth_overflow A) by lia. apply nth_nil_0.
+  Qed.
+  Lemma entry_out_col n A i j : wfm n A -> n <= i -> entry A i j = 0.
+  Proof. intros [Hl Hr] Hi. unfold entry. rewrite (nth_overflow A) by lia. apply nth_nil_0. Qed.
+
+  (* ================================================================ the mode table *)
+  Definition op_mat (t : Z) (A : mat F) : mat F :=
+    if (t =? 0)%Z then A else if (t =? 1)%Z then mtrans A else mH A.
+  Definition truthful (sym herm : bool) (A : mat F) : Prop :=
+    (sym = true -> mtrans A = A) /\ (herm = true -> mH A = A).
+
+  Lemma conj_eq_swap (u v : vec F) : u = vconj v -> vconj u = v.
+  Proof. intros ->. apply vconj_invol. Qed.
+
+  (* solving  storage-matrix * y = conj?(b)  and returning conj?(y) solves  op_trans(A) x = b :
+     (sym, herm) in 4 combinations x trans in {N, T, H} *)
+  Theorem mode_table sym herm t A y b :
+    trans_valid t = true -> truthful sym herm A ->
+    mv (if adjoint_mode sym herm t then mH A else A) y = (if conj_mode sym herm t then vconj b else b) ->
+    mv (op_mat t A) (if conj_mode sym herm t then vconj y else y) = b.
+  Proof.
+    intros Ht [Hs Hh] E. unfold trans_valid in Ht. unfold op_mat, adjoint_mode, conj_mode in *.
+    assert (Hcases : t = 0%Z \/ t = 1%Z \/ t = 2%Z) by lia.
+    destruct Hcases as [-> | [-> | ->]]; simpl in *.
+    - (* N *) rewrite !andb_false_r in *. simpl in *. exact E.
+    - (* T *) rewrite andb_false_r, andb_true_r in *. simpl in *.
+      destruct sym; simpl in *.
+      + rewrite Hs; auto.
+      + apply conj_eq_swap in E. rewrite mv_conj in E. destruct herm; simpl in *.
+        * (* Hermitian: A^T = conj A *)
+          assert (mtrans A = mconj A) as ->; auto.
+          specialize (Hh eq_refl). unfold mH in Hh. rewrite <- mconj_mtrans in Hh.
+          rewrite <- Hh at 2. now rewrite mconj_invol.
+        * unfold mH in E. rewrite <- mconj_mtrans, mconj_invol in E. exact E.
+    - (* H *) rewrite andb_true_r, andb_false_r, orb_false_r in *.
+      destruct sym; simpl in *.
+      + apply conj_eq_swap in E. rewrite mv_conj in E.
+        unfold mH. rewrite <- mconj_mtrans, Hs; auto.
+      + destruct herm; simpl in *; auto. rewrite Hh; auto.
+  Qed.
+
+  (* ================================================================ decoupled dofs *)
+  (* m marks dofs whose row AND column vanish off the diagonal and whose diagonal entry is non-zero *)
+  Definition Decoupled (n : nat) (A : mat F) (m : list bool) : Prop :=
+    length m = n /\
+    (forall i j, i < n -> j < n -> i <> j -> nth i m false = true \/ nth j m false = true -> entry A i j = 0) /\
+    (forall i, i < n -> nth i m false = true -> entry A i i <> 0).
+
+  Lemma Decoupled_mH n A m : wfm n A -> Decoupled n A m -> Decoupled n (mH A) m.
+  Proof.
+    intros W [Hl [Hoff Hd]]. split; [auto | split].
+    - intros i j Hi Hj Hne Hm. rewrite (entry_mH n); auto. rewrite Hoff; auto using conj_0. tauto.
+    - intros i Hi Hm. rewrite (entry_mH n); auto. intros E. apply (Hd i Hi Hm).
+      rewrite <- (conj_invol (entry A i i)), E. apply conj_0.
+  Qed.
+
+  (* --- get_diagonal_indices detects only decoupled dofs *)
+  Lemma count_le1 (l : list bool) i : count_true l <= 1 -> nth i l false = true ->
+    forall j, j <> i -> nth j l false = false.
+  Proof.
+    unfold count_true. revert i; induction l as [|b l IH]; intros i Hc Hi j Hne.
+    - destruct j; reflexivity.
+    - destruct i as [|i]; simpl in Hi.
+      + subst b. simpl in Hc. destruct j as [|j]; [congruence|]. simpl.
+        destruct (nth j l false) eqn:E; auto. exfalso.
+        assert (In true (filter (fun b => b) l)) by (apply filter_In; split; auto; rewrite <- E; apply nth_In;
+          destruct (lt_dec j (length l)); auto; rewrite nth_overflow in E by lia; discriminate).
+        destruct (filter (fun b => b) l); simpl in *; [contradiction | lia].
+      + destruct j as [|j]; simpl.
+        * destruct b; auto. exfalso. simpl in Hc.
+          assert (In true (filter (fun b => b) l)) by (apply filter_In; split; auto; rewrite <- Hi; apply nth_In;
+            destruct (lt_dec i (length l)); auto; rewrite nth_overflow in Hi by lia; discriminate).
+          destruct (filter (fun b => b) l); simpl in *; [contradiction | lia].
+        * apply (IH i); auto. simpl in Hc. destruct b; simpl in Hc; lia.
+  Qed.
+
+  Lemma bentry_bmat A i j : bentry (bmat A) i j = negb (fis0 (entry A i j)).
+  Proof.
+    unfold bentry, bmat, entry.
+    change (@nil bool) with (map (fun z : F => negb (fis0 z)) []) at 1.
+    rewrite (map_nth (map (fun z => negb (fis0 z)))).
+    assert (E0 : negb (fis0 0) = false) by (apply negb_false_iff, is0_spec; auto).
+    rewrite <- E0 at 1. apply (map_nth (fun z => negb (fis0 z))).
+  Qed.
+
+  Theorem diag_detect_sound n A : wfm n A -> Decoupled n A (get_diagonal_indices A).
+  Proof.
+    intros W. pose proof (ncols_wfm n A W) as Hc. pose proof W as [Hl Hr].
+    unfold get_diagonal_indices. rewrite Hc, Hl, Nat.min_id.
+    set (B := bmat A).
+    set (hd := map (fun i => bentry B i i) (seq 0 n)).
+    set (nr := map (fun j => count_true (map (fun row => nth j row false) B)) (seq 0 n)).
+    set (nc := firstn n (map count_true B)).
+    assert (LB : length B = n) by (unfold B, bmat; now rewrite map_length).
+    assert (Lhd : length hd = n) by (unfold hd; now rewrite map_length, seq_length).
+    assert (Lnr : length nr = n) by (unfold nr; now rewrite map_length, seq_length).
+    assert (Lnc : length nc = n) by (unfold nc; rewrite firstn_length, map_length; lia).
+    set (mk := map2 andb (map2 andb hd (map (fun c => c <=? 1) nr)) (map (fun c => c <=? 1) nc)).
+    assert (Lm : length mk = n).
+    { unfold mk. rewrite !map2_length; rewrite ?map_length; try lia. rewrite map2_length; rewrite ?map_length; lia. }
+    assert (Hmk : forall i, i < n -> nth i mk false = true ->
+              bentry B i i = true /\ count_true (map (fun row => nth i row false) B) <= 1 /\
+              count_true (nth i B []) <= 1).
+    { intros i Hi Hm. unfold mk in Hm.
+      rewrite (nth_map2 andb _ _ i false false false) in Hm
+        by (rewrite ?map2_length, ?map_length; try lia; rewrite map_length; lia).
+      rewrite (nth_map2 andb _ _ i false false false) in Hm by (rewrite ?map_length; lia).
+      apply andb_true_iff in Hm as [Hm H3]. apply andb_true_iff in Hm as [H1 H2].
+      unfold hd in H1. rewrite (nth_indep _ false (bentry B 0 0)) in H1 by (rewrite map_length, seq_length; auto).
+      rewrite (map_nth (fun i => bentry B i i) (seq 0 n) 0%nat i), seq_nth in H1 by auto. simpl in H1.
+      unfold nr in H2. rewrite (nth_indep _ false ((fun c => c <=? 1) 0%nat)) in H2 by (rewrite !map_length, seq_length; auto).
+      rewrite (map_nth (fun c => c <=? 1)) in H2.
+      rewrite (nth_indep _ 0%nat ((fun j => count_true (map (fun row => nth j row false) B)) 0%nat)) in H2
+        by (rewrite map_length, seq_length; auto).
+      rewrite (map_nth (fun j => count_true (map (fun row => nth j row false) B)) (seq 0 n) 0%nat i), seq_nth in H2 by auto.
+      simpl in H2. apply Nat.leb_le in H2.
+      unfold nc in H3. rewrite (nth_indep _ false ((fun c => c <=? 1) 0%nat)) in H3 by (rewrite map_length; lia).
+      rewrite (map_nth (fun c => c <=? 1)) in H3. apply Nat.leb_le in H3.
+      rewrite nth_firstn in H3. destruct (i <? n) eqn:Ei; [| apply Nat.ltb_ge in Ei; lia].
+      rewrite (nth_indep _ 0%nat (count_true [])) in H3 by (rewrite map_length; lia).
+      rewrite (map_nth count_true) in H3. auto. }
+    split; [exact Lm | split].
+    - intros i j Hi Hj Hne [Hm | Hm].
+      + (* row i has a single non-zero, on the diagonal *)
+        destruct (Hmk i Hi Hm) as [Hdg [_ Hrow]].
+        pose proof (count_le1 (nth i B []) i Hrow Hdg j (not_eq_sym Hne)) as E.
+        change (nth j (nth i B []) false) with (bentry B i j) in E. unfold B in E.
+        rewrite bentry_bmat in E. apply negb_false_iff, is0_spec in E. exact E.
+      + (* column j has a single non-zero, on the diagonal *)
+        destruct (Hmk j Hj Hm) as [Hdg [Hcol _]].
+        assert (Hn : forall k, nth k (map (fun row => nth j row false) B) false = bentry B k j).
+        { intros k. unfold bentry. change false with ((fun row : list bool => nth j row false) []) at 1.
+          rewrite (map_nth (fun row => nth j row false)). destruct j; reflexivity. }
+        pose proof (count_le1 _ j Hcol) as E. rewrite Hn in E. specialize (E Hdg i Hne).
+        rewrite Hn in E. unfold B in E. rewrite bentry_bmat in E. apply negb_false_iff, is0_spec in E. exact E.
+    - intros i Hi Hm. destruct (Hmk i Hi Hm) as [Hdg _]. unfold B in Hdg. rewrite bentry_bmat in Hdg.
+      apply negb_true_iff in Hdg. apply is0_false in Hdg. exact Hdg.
+  Qed.
+End LdaProofs.
